@@ -2,6 +2,7 @@ package main
 
 import (
 	"fmt"
+	"sort"
 	"strings"
 	"time"
 )
@@ -84,6 +85,11 @@ func genConfig(r *rng) cfgCase {
 				v = append(v, odd[r.intn(len(odd))])
 			}
 			feeds["odd"] = v
+		}
+		if r.intn(4) == 0 {
+			// feed names are TOML keys: quoted keys may be anything
+			name := []string{" reading list ", "with space", "tab\there", " lead", "trail ", "ünï cödé", "a.b", "0", "-"}[r.intn(9)]
+			feeds[name] = stdFeeds["solo"]
 		}
 	}
 	// a defect, or none
@@ -207,6 +213,7 @@ func genConfig(r *rng) cfgCase {
 					fl = append(fl, k+" = "+tomlList(v))
 				}
 			}
+			fl = append(fl, oddNamedFeeds(feeds)...)
 			section("feeds", fl)
 		}
 		if haveNet {
@@ -235,6 +242,7 @@ func genConfig(r *rng) cfgCase {
 					fl = append(fl, k+" = "+tomlList(v))
 				}
 			}
+			fl = append(fl, oddNamedFeeds(feeds)...)
 			section("feeds", fl)
 		}
 	}
@@ -272,6 +280,10 @@ func genConfig(r *rng) cfgCase {
 		c.text = c.text[:cut]
 		c.expect, c.kind = "either", "torn-file"
 		c.params["judged"] = 0
+	}
+	if r.intn(7) == 0 {
+		c.text = symlinkMarker + c.text
+		c.kind += "+symlink"
 	}
 	if !haveFeeds {
 		feeds = map[string][]string{}
@@ -311,4 +323,21 @@ func planC19(tier string, seed uint64) *Plan {
 	}
 	p.Phases = []Phase{{Name: "configurations", Groups: groups, Limit: 5 * time.Minute}}
 	return p
+}
+
+// oddNamedFeeds: feeds whose names need quoting, as TOML lines (sorted by name).
+func oddNamedFeeds(feeds map[string][]string) []string {
+	std := map[string]bool{"empty": true, "f1": true, "f2": true, "odd": true, "solo": true}
+	var names []string
+	for k := range feeds {
+		if !std[k] {
+			names = append(names, k)
+		}
+	}
+	sort.Strings(names)
+	var out []string
+	for _, k := range names {
+		out = append(out, tomlStr(k)+" = "+tomlList(feeds[k]))
+	}
+	return out
 }
